@@ -932,9 +932,14 @@ def rule_no_park_after_close(ctx):
                                                (t.node["lhs"].get("t") or "") in ("bool", "_Bool") and const_of(c.expand(t.node["rhs"])) not in (None, 0)}
 
         def guarded(h, pos, depth=0):
+            # every path to the park passes an edge on which a closed mark is known false (paths that contradict a
+            # constant-only local flag such as `rv` are not paths)
+            cut = {}
             for bid, k, atom, val in G.edge_facts(h):
-                if atom.get("k") == "mem" and last_field(atom) in flags and not val and G.dominated(h, pos, {bid: k}):
-                    return True
+                if atom.get("k") == "mem" and last_field(atom) in flags and not val:
+                    cut[bid] = k
+            if cut and pos not in G.reach_flags(h, (h.entry, 0), edge_ok=lambda b, k: not (b in cut and cut[b] == k)):
+                return True
             if depth < 2 and h.static:
                 cs = [(c, s_) for (c, s_) in callers.get(h.name, []) if c.file == h.file and not c.cfg_failed and prog.resolve(c, h.name) is h]
                 return bool(cs) and all(guarded(c, (s_.b, s_.i), depth + 1) for c, s_ in cs)
